@@ -119,13 +119,17 @@ extern "C"
     void prog_head_delete(void *h) { delete (igris::dlist_base *)h; }
     unsigned prog_head_size_locked(void *h) { return (unsigned)((igris::dlist_base *)h)->size(); }
 
+    // what a wake carries is a full machine word (a pointer to a message record, a wide token): two thirds of the small numbers
+    // the model uses travel as values that need more than 32 bits and come back through unwiden()
+    static intptr_t widen(long u) { return u % 3 == 0 || u < 0 || u >= (1 << 24) ? (intptr_t)u : (intptr_t)(((uint64_t)u << 24) + 0x123456u); }
+    static long unwiden(intptr_t f) { return f > 0 && (f & 0xFFFFFF) == 0x123456 && (f >> 24) % 3 != 0 ? (long)(f >> 24) : (long)f; }
     long prog_wait(void *head, int prio)
     {
         void *fut = 0;
         h_wait_begin(prio);
         wait_current_schedee((igris::dlist_base *)head, prio, &fut);
-        h_wait_end((long)(intptr_t)fut);
-        return (long)(intptr_t)fut;
+        h_wait_end(unwiden((intptr_t)fut));
+        return unwiden((intptr_t)fut);
     }
     void prog_wake(void *head, int all, int wrapped, long u)
     {
@@ -134,16 +138,16 @@ extern "C"
         {
             system_lock();
             h_wake_begin(all, 1, u);
-            if (all) unwait_all(h, u);
-            else unwait_one(h, u);
+            if (all) unwait_all(h, widen(u));
+            else unwait_one(h, widen(u));
             h_wake_end();
             system_unlock();
         }
         else
         {
             h_wake_begin(all, 0, u);
-            if (all) unwait_all(h, u);
-            else unwait_one(h, u);
+            if (all) unwait_all(h, widen(u));
+            else unwait_one(h, widen(u));
             h_wake_end();
         }
     }
@@ -162,8 +166,8 @@ extern "C"
     static void dlg_common(Dlg *d, int which)
     {
         h_delegate_handler(d->id, which, d->handler);
-        h_delegate_woken(d->id, (long)d->w.future);
-        if (d->kind == 1) unwait_one(d->head, 500000 + d->id);
+        h_delegate_woken(d->id, unwiden((intptr_t)d->w.future));
+        if (d->kind == 1) unwait_one(d->head, widen(500000 + d->id));
     }
     static void dlg_handler(void *arg) { dlg_common((Dlg *)arg, 0); }
     static void dlg_handler_b(void *arg) { dlg_common((Dlg *)arg, 1); }
